@@ -34,6 +34,9 @@ def gen_case(seed, n):
         q["u"] = i if (i == 0 or r.random() > 0.12) else r.randrange(0, i)       # sometimes repeat an earlier URL
         q["post_len"] = r.choice([0, 1, 10, 1000, 8000])
         q["post_chunked"] = r.random() < 0.4
+        # a later request that squid itself answers with an error and then stops reading the connection
+        # (unsupported Expect -> 417): its response is ready long before the earlier ones finish
+        q["expect417"] = (i >= 1 and q["method"] == "GET" and r.random() < 0.12)
         reqs.append(q)
     if "dupurl" in AVOID:
         for i, q in enumerate(reqs):
@@ -108,6 +111,8 @@ def run(a, res):
                     body = w + b"0\r\n\r\n"
                 else:
                     hs.append(("Content-Length", str(len(body))))
+            if q.get("expect417"):
+                hs.append(("Expect", "verif-unsupported-expectation"))
             if i == len(c["reqs"]) - 1 and c["last_close"]:
                 hs.append(("Connection", "close"))
             head = f"{q['method']} {url} HTTP/1.1\r\n" + "".join(f"{k}: {v}\r\n" for k, v in hs) + "\r\n"
